@@ -46,19 +46,24 @@ fn same_prefix(a: &[u8; 16], b: &[u8; 8], n: usize) -> bool {
     true
 }
 
-/// C19-H1: Frame::parse is exact and total on every byte string of length <= 24 (it reads at most 16 bytes).
+/// C19-H1: Frame::parse is exact and total on every byte string of the given length (it reads at most 16 bytes).
 /// For VLAN id 0 both the tagged (8-byte, id 0) and the untagged (6-byte) form are accepted here: the folding
 /// itself is the subject of C13.
-#[cfg_attr(kani, kani::proof, kani::unwind(10))]
-pub fn c19_frame_exact() {
+fn frame_exact(len: usize) {
     let data: [u8; 24] = kani::any();
-    let len: usize = kani::any();
-    kani::assume(len <= 24);
     let res = Frame::parse(&data[..len]);
+    // errors are forgotten, not dropped: the drop glue of `Error` (io::Error variants) is irrelevant and costly
+    let res = match res {
+        Ok(v) => Some(v),
+        Err(e) => {
+            std::mem::forget(e);
+            None
+        }
+    };
     match ref_frame(&data[..len]) {
-        None => assert!(res.is_err()),
+        None => assert!(res.is_none()),
         Some((rs, rd, rl, vlan0)) => {
-            assert!(res.is_ok());
+            assert!(res.is_some());
             let (s, d) = res.unwrap();
             if vlan0 && s.len == 6 {
                 // folded form: plain MACs
@@ -75,11 +80,23 @@ pub fn c19_frame_exact() {
             }
         }
     }
-    vcover!(len >= 16 && data[12] == 0x81 && data[13] == 0, "tagged");
-    vcover!(len == 15 && data[12] == 0x81 && data[13] == 0, "tagged_truncated");
-    vcover!(len == 14 && data[12] != 0x81, "minimal_untagged");
     witness!();
 }
+macro_rules! frame_inst {
+    ($($name:ident = $len:expr),*) => {$(
+        #[cfg_attr(kani, kani::proof, kani::unwind(10))]
+        pub fn $name() {
+            frame_exact($len)
+        }
+    )*};
+}
+frame_inst!(c19_frame_exact_len00 = 0, c19_frame_exact_len01 = 1, c19_frame_exact_len02 = 2, c19_frame_exact_len03 = 3,
+    c19_frame_exact_len04 = 4, c19_frame_exact_len05 = 5, c19_frame_exact_len06 = 6, c19_frame_exact_len07 = 7,
+    c19_frame_exact_len08 = 8, c19_frame_exact_len09 = 9, c19_frame_exact_len10 = 10, c19_frame_exact_len11 = 11,
+    c19_frame_exact_len12 = 12, c19_frame_exact_len13 = 13, c19_frame_exact_len14 = 14, c19_frame_exact_len15 = 15,
+    c19_frame_exact_len16 = 16, c19_frame_exact_len17 = 17, c19_frame_exact_len18 = 18, c19_frame_exact_len19 = 19,
+    c19_frame_exact_len20 = 20, c19_frame_exact_len21 = 21, c19_frame_exact_len22 = 22, c19_frame_exact_len23 = 23,
+    c19_frame_exact_len24 = 24);
 
 /// C13-H1: VLAN normalisation. Behind ethertype 0x8100 the address is the 12-bit VLAN id + MAC; the PCP/DEI nibble
 /// never influences it; priority-tagged frames (VLAN id 0) count as untagged: plain 6-byte MAC addresses, equal to
@@ -89,19 +106,19 @@ pub fn c13_vlan_normalisation() {
     let data: [u8; 20] = kani::any();
     let nibble: u8 = kani::any();
     kani::assume(data[12] == 0x81 && data[13] == 0x00);
-    let (s, d) = Frame::parse(&data).unwrap();
+    let (s, d) = crate::vh_common::okf(Frame::parse(&data)).unwrap();
     let vid = (((data[14] & 0x0f) as u16) << 8) | data[15] as u16;
     // the same frame with another PCP/DEI nibble
     let mut other = data;
     other[14] = (data[14] & 0x0f) | (nibble << 4);
-    let (s2, d2) = Frame::parse(&other).unwrap();
+    let (s2, d2) = crate::vh_common::okf(Frame::parse(&other)).unwrap();
     assert!(s == s2 && d == d2);
     // the same frame without the tag
     let mut untagged = [0u8; 16];
     untagged[..12].copy_from_slice(&data[..12]);
     untagged[12] = 0x08;
     untagged[13] = 0x00;
-    let (us, ud) = Frame::parse(&untagged).unwrap();
+    let (us, ud) = crate::vh_common::okf(Frame::parse(&untagged)).unwrap();
     assert!(us.len == 6 && ud.len == 6);
     if vid == 0 {
         assert!(s.len == 6 && d.len == 6);
@@ -124,17 +141,21 @@ pub fn c13_vlan_normalisation() {
 }
 
 /// C19-H2: Packet::parse is exact and total on every byte string of length <= 64 (it reads at most 40 bytes)
-#[cfg_attr(kani, kani::proof, kani::unwind(18))]
-pub fn c19_packet_exact() {
+fn packet_exact(len: usize) {
     let data: [u8; 64] = kani::any();
-    let len: usize = kani::any();
-    kani::assume(len <= 64);
     let res = Packet::parse(&data[..len]);
+    let res = match res {
+        Ok(v) => Some(v),
+        Err(e) => {
+            std::mem::forget(e);
+            None
+        }
+    };
     let v = if len > 0 { data[0] >> 4 } else { 0 };
     if len == 0 || (v != 4 && v != 6) || (v == 4 && len < 20) || (v == 6 && len < 40) {
-        assert!(res.is_err());
+        assert!(res.is_none());
     } else {
-        assert!(res.is_ok());
+        assert!(res.is_some());
         let (s, d) = res.unwrap();
         if v == 4 {
             assert!(s.len == 4 && d.len == 4);
@@ -152,9 +173,14 @@ pub fn c19_packet_exact() {
             }
         }
     }
-    vcover!(len == 20 && v == 4, "ipv4_minimal");
-    vcover!(len == 19 && v == 4, "ipv4_truncated");
-    vcover!(len == 40 && v == 6, "ipv6_minimal");
-    vcover!(len == 39 && v == 6, "ipv6_truncated");
     witness!();
 }
+macro_rules! packet_inst {
+    ($($name:ident = $len:expr),*) => {$(
+        #[cfg_attr(kani, kani::proof, kani::unwind(18))]
+        pub fn $name() {
+            packet_exact($len)
+        }
+    )*};
+}
+packet_inst!(c19_packet_exact_len00 = 0, c19_packet_exact_len01 = 1, c19_packet_exact_len02 = 2, c19_packet_exact_len03 = 3, c19_packet_exact_len04 = 4, c19_packet_exact_len05 = 5, c19_packet_exact_len06 = 6, c19_packet_exact_len07 = 7, c19_packet_exact_len08 = 8, c19_packet_exact_len09 = 9, c19_packet_exact_len10 = 10, c19_packet_exact_len11 = 11, c19_packet_exact_len12 = 12, c19_packet_exact_len13 = 13, c19_packet_exact_len14 = 14, c19_packet_exact_len15 = 15, c19_packet_exact_len16 = 16, c19_packet_exact_len17 = 17, c19_packet_exact_len18 = 18, c19_packet_exact_len19 = 19, c19_packet_exact_len20 = 20, c19_packet_exact_len21 = 21, c19_packet_exact_len22 = 22, c19_packet_exact_len23 = 23, c19_packet_exact_len24 = 24, c19_packet_exact_len25 = 25, c19_packet_exact_len26 = 26, c19_packet_exact_len27 = 27, c19_packet_exact_len28 = 28, c19_packet_exact_len29 = 29, c19_packet_exact_len30 = 30, c19_packet_exact_len31 = 31, c19_packet_exact_len32 = 32, c19_packet_exact_len33 = 33, c19_packet_exact_len34 = 34, c19_packet_exact_len35 = 35, c19_packet_exact_len36 = 36, c19_packet_exact_len37 = 37, c19_packet_exact_len38 = 38, c19_packet_exact_len39 = 39, c19_packet_exact_len40 = 40, c19_packet_exact_len41 = 41, c19_packet_exact_len42 = 42, c19_packet_exact_len43 = 43, c19_packet_exact_len44 = 44, c19_packet_exact_len45 = 45, c19_packet_exact_len46 = 46, c19_packet_exact_len47 = 47, c19_packet_exact_len48 = 48, c19_packet_exact_len49 = 49, c19_packet_exact_len50 = 50, c19_packet_exact_len51 = 51, c19_packet_exact_len52 = 52, c19_packet_exact_len53 = 53, c19_packet_exact_len54 = 54, c19_packet_exact_len55 = 55, c19_packet_exact_len56 = 56, c19_packet_exact_len57 = 57, c19_packet_exact_len58 = 58, c19_packet_exact_len59 = 59, c19_packet_exact_len60 = 60, c19_packet_exact_len61 = 61, c19_packet_exact_len62 = 62, c19_packet_exact_len63 = 63, c19_packet_exact_len64 = 64);
